@@ -137,7 +137,7 @@ func streamSweep(idx int) int {
 					sep = "\r\n"
 				}
 				final := variant == 1
-				body, want := sweepBody(L, sep, final, bs == 64 && L > 200)
+				body, want := sweepBody("s", L, sep, final, bs == 64 && L > 200)
 				if body == "" {
 					continue
 				}
@@ -175,12 +175,12 @@ func streamSweep(idx int) int {
 	return idx
 }
 
-// sweepBody builds a body of exactly L bytes: lines "s,h=<tag> v=<i>i <1000+i>"; the last line's tag is padded.
-func sweepBody(L int, sep string, final bool, long bool) (string, []string) {
+// sweepBody builds a body of exactly L bytes: lines "<mst>,h=<tag> v=<i>i <1000+i>"; the last line's tag is padded.
+func sweepBody(mst string, L int, sep string, final bool, long bool) (string, []string) {
 	var sb strings.Builder
 	var tags []string
 	i := 0
-	add := func(tag string) string { return fmt.Sprintf("s,h=%s v=%di %d", tag, i, 1000+i) }
+	add := func(tag string) string { return fmt.Sprintf("%s,h=%s v=%di %d", mst, tag, i, 1000+i) }
 	tail := 0
 	if final {
 		tail = len(sep)
